@@ -242,9 +242,9 @@ func rulesText(rs []Inhibit) string {
 func init() {
 	Register(&Prop{
 		ID: "C03", Level: "exploration", Gen: c03Gen, Check: c03Check,
-		Rule: "seeded run with 1-3 inhibit rules (source/target matcher sets drawn from pools that overlap, equal lists of 0-2 labels incl. one no alert carries), 4-9 label sets sharing equal-label values, per label set up to 10 submissions in time-out mode, with explicit ends of unordered lengths (30 s-40 min) or explicit resolves, spaced 2 ms-16 min, provider GC every 20 s-6 min and the inhibitor's own 15-minute cache GC inside the 20-70 min (thorough up to 3 h) horizon, optional valid/rejected reload; a GET /api/v2/alerts after every POST and 15-60 more at random instants. Non-trivial: at least one alert's reported inhibition was compared with the rule; distinct by abstract trace.",
-		Real: []string{"app.New wiring + reloader", "api/v2 (status prediction)", "provider/mem", "inhibit (rules, source cache, equal-label index, GC)", "dispatch + notify pipeline (inhibit mute stage)"},
-		Stub: []string{"clock (synctest)", "client (in-memory HTTP)", "receiver endpoint"},
+		Rule:        "seeded run with 1-3 inhibit rules (source/target matcher sets drawn from pools that overlap, equal lists of 0-2 labels incl. one no alert carries), 4-9 label sets sharing equal-label values, per label set up to 10 submissions in time-out mode, with explicit ends of unordered lengths (30 s-40 min) or explicit resolves, spaced 2 ms-16 min, provider GC every 20 s-6 min and the inhibitor's own 15-minute cache GC inside the 20-70 min (thorough up to 3 h) horizon, optional valid/rejected reload; a GET /api/v2/alerts after every POST and 15-60 more at random instants. Non-trivial: at least one alert's reported inhibition was compared with the rule; distinct by abstract trace.",
+		Real:        []string{"app.New wiring + reloader", "api/v2 (status prediction)", "provider/mem", "inhibit (rules, source cache, equal-label index, GC)", "dispatch + notify pipeline (inhibit mute stage)"},
+		Stub:        []string{"clock (synctest)", "client (in-memory HTTP)", "receiver endpoint"},
 		Assumptions: []string{"the reference verdict is computed from the alerts the same GET returns (their labels and end times)", "probes at which a source's end time lies within 2 ms are not judged for the alerts it affects"},
 	})
 }
